@@ -18,4 +18,20 @@ if [ "$prop" = C12 ] || [ "$prop" = C13 ]; then
   ( cd "$work/shadow/b3sum" && cargo build --offline --release --target-dir "$work/target_b3sum" >"$work/build_b3sum.log" 2>&1 ) || { echo "B3SUM BUILD FAILED"; tail -5 "$work/build_b3sum.log"; exit 2; }
   export B3SUM_BIN="$work/target_b3sum/release/b3sum"
 fi
+if [ "$prop" = C04 ]; then
+  # three build flavours, per-part evidence, cross-flavour digest comparison (as ./check C04 does)
+  rm -rf "$work/out/evidence/.parts"; rc=0
+  "$work/target/release/b3sim" run --prop C04 --tier "$tier" --part default "$@" || rc=$?
+  [ $rc -ge 2 ] && exit 2
+  for fl in pure prefer_intrinsics; do
+    ( cd "$work/sim" && cargo build --offline --release --features $fl --target-dir "$work/target_$fl" >"$work/build_$fl.log" 2>&1 ) || { echo "BUILD FAILED ($fl)"; tail -5 "$work/build_$fl.log"; exit 2; }
+    r=0; "$work/target_$fl/release/b3sim" run --prop C04 --tier "$tier" --part $fl --scale 0.5 "$@" || r=$?
+    [ $r -ge 2 ] && exit 2
+    [ $r -eq 1 ] && rc=1
+  done
+  r=0; "$work/target/release/b3sim" merge-parts --prop C04 --parts default,pure,prefer_intrinsics --tier "$tier" || r=$?
+  [ $r -ge 2 ] && exit 2
+  [ $r -eq 1 ] && rc=1
+  exit $rc
+fi
 "$work/target/release/b3sim" run --prop "$prop" --tier "$tier" "$@"
